@@ -99,7 +99,7 @@ func MaxConnsRuns(c *run.Ctx, s *kit.Summary, r *kit.Rng) {
 			s.Violate(kit.Violation{Kind: "inflight_exceeds_max", What: "max-connections run: more requests in flight than max-workers", Input: in, Expected: fmt.Sprint("<= ", m), Observed: fmt.Sprint(p)})
 		}
 		if cnt != int(hits) {
-			s.Violate(kit.Violation{Kind: "results_not_exactly_started_hits", What: "max-connections run: number of results differs from the hits the pacer released", Input: in, Expected: fmt.Sprint(hits), Observed: fmt.Sprint(cnt)})
+			s.Diverge("sibling-property:results_not_exactly_started_hits", fmt.Sprint(in), fmt.Sprint(cnt, " results"), fmt.Sprint(hits, " results (C02)"))
 		}
 	}
 }
